@@ -273,7 +273,8 @@ def _parse_rvalue(s):
         items = split_top(inner) if inner else []
         return ('aggregate', 'adt', name, [(None, parse_operand(x)) for x in items])
     # unit variant  Option::<u64>::None
-    if re.fullmatch(r'[A-Za-z_][\w:<>, &\'\[\];\(\)]*', s):
+    if re.fullmatch(r'[A-Za-z_][\w:<>, &\'\[\];\(\)]*', s) or re.fullmatch(r'[A-Za-z_][\w:]*::<.*\{(?:async (?:block|fn body)|closure|coroutine)[^{}]*\}.*>::\w+', s):
+        # (second form: a unit variant of a type instantiated with an unnameable type, e.g. Option::<{async block@f:l:c}>::None)
         return ('aggregate', 'adt', s, [])
     raise MirError('rvalue ' + s)
 
